@@ -20,6 +20,7 @@ RULE = (
     "found'). Version: from_max_setting_enum for all 65536 indices, from_pe_export_stamp for every table key and its "
     "neighbours, every version string of the documented shape, monotonicity of both tables, BeaconConfig.version "
     "precedence on images with/without export directory. non-trivial = every image / index / string evaluated"
+    '. Added: export directory at the start / end of its section, explicit search ranges, compile stamp 0 through every constructor, Guardrails inside XorEncoded, the typed maximum index, one object across stamp assignments, unpadded days in version strings. '
 )
 ASSUMPTIONS = [
     "`None` and b'' are the same answer for 'no append'; append bytes do not end in NUL (padding is stripped by design)",
